@@ -5,6 +5,7 @@ import (
 	"fmt"
 	"math/big"
 	"os"
+	"reflect"
 	"strings"
 
 	ike "github.com/free5gc/ike"
@@ -15,6 +16,9 @@ import (
 	"verifharness/abs"
 	"verifharness/bridge"
 	"verifharness/core"
+	"verifharness/gen"
+	"verifharness/libsa"
+	"verifharness/ref"
 )
 
 type M = map[string]interface{}
@@ -103,8 +107,211 @@ func buildMsgObject(m *abs.Msg) (*message.IKEMessage, error) {
 	return lm, nil
 }
 
+// ---------------------------------------------------------------------------
+// Unrelated library activity and "sibling" calls around the operation under test.  The properties speak about
+// single operations; a process that uses the library does many other things in between.  Package-level state,
+// caches keyed by part of the input, state left behind by an error path or by another entry point would show
+// only then.  Everything here is derived from the content of the input (reproducible), uses its own objects,
+// and draws nothing from crypto/rand (so that the deterministic-random-stream monitors are not disturbed).
+
+var noiseKeyRaw = libsa.Raw{Suite: ref.Suite{EncKeyLen: 16, Integ: ref.HSHA1}, Prf: ref.HSHA1, K: ref.IKEKeys{
+	D: make([]byte, 20), Ai: []byte("noise-integ-key-i..."), Ar: []byte("noise-integ-key-r..."), Ei: []byte("noise-encr-key-i"), Er: []byte("noise-encr-key-r"),
+	Pi: make([]byte, 20), Pr: make([]byte, 20)}}
+
+func noise(seed uint64) {
+	r := core.NewRng(seed, 0x6e6f697365)
+	core.Try(func() {
+		switch r.Intn(10) {
+		case 0: // encode another message
+			if lm, err := bridge.BuildMsg(gen.Msg(r, gen.Opt{MaxPayloads: 3})); err == nil {
+				_, _ = lm.Encode()
+			}
+		case 1: // decode garbage / a truncated datagram (error paths)
+			b, _ := ref.EncodeMsg(gen.Msg(r, gen.Opt{MaxPayloads: 3}), nil)
+			if len(b) > 30 && r.Bool() {
+				b = b[:28+r.Intn(len(b)-28)]
+			} else {
+				b = r.Bytes(r.Intn(90))
+			}
+			_ = new(message.IKEMessage).Decode(b)
+		case 2: // derive keys of another SA
+			k := newInfoKey(r.Intn(3), r.Intn(3), r.Intn(3), 0)
+			if k.GenerateKeyForIKESA(r.Bytes(32), r.Bytes(128), r.U64(), r.U64()) == nil {
+				ck := newChild(r.Intn(3), r.Intn(4))
+				_ = ck.GenerateKeyForChildSA(k, r.Bytes(32))
+			}
+		case 3:
+			_, _, _, _, _, _ = eap.EapAkaPrimePRF(r.Bytes(16), r.Bytes(16), string(r.Bytes(r.Intn(30))))
+		case 4: // another EAP-AKA' packet: marshal, MAC, unmarshal
+			if le, err := bridge.BuildEAP(&abs.EAP{Code: 1, ID: r.Byte(), Method: &abs.Method{Type: abs.MAkaPrime, AKA: gen.AKAWith(r, 1, r.Intn(128)|8)}}); err == nil {
+				_, _ = le.CalcEapAkaPrimeAtMAC(r.Bytes(32))
+				if b, err := le.Marshal(); err == nil {
+					_ = new(eap.EAP).Unmarshal(b)
+				}
+			}
+		case 5, 6: // unprotect another SA's genuine (5) / tampered (6) message
+			m := gen.Msg(r, gen.Opt{Protected: true, MaxPayloads: 2})
+			inner, first, err := ref.EncodeChain(m.Payloads, nil)
+			if err != nil || len(inner) > 4000 {
+				return
+			}
+			padn := (16 - (len(inner)+1)%16) % 16
+			w, err := ref.ProtectRaw(m, first, inner, noiseKeyRaw.Suite, noiseKeyRaw.Dir(true), r.Bytes(16), r.Bytes(padn), nil)
+			if err != nil {
+				return
+			}
+			if r.Bool() {
+				w[len(w)-1-r.Intn(len(w)-28)] ^= 0x10
+			}
+			if k, err := libsa.NewKey(noiseKeyRaw); err == nil {
+				_, _ = ike.DecodeDecrypt(w, nil, k, message.Role_Responder)
+			}
+		case 7: // an encode that is refused part-way
+			bad := &message.IKEMessage{IKEHeader: &message.IKEHeader{MajorVersion: 2, ExchangeType: 34}, Payloads: message.IKEPayloadContainer{
+				&message.Nonce{NonceData: r.Bytes(16)},
+				&message.SecurityAssociation{Proposals: message.ProposalContainer{&message.Proposal{ProposalNumber: 1, ProtocolID: 1,
+					EncryptionAlgorithm: message.TransformContainer{{TransformType: 1, TransformID: 12, AttributePresent: true, AttributeFormat: 1, AttributeType: 14, AttributeValue: 128}}}, {ProposalNumber: 2}}},
+				&message.TrafficSelectorInitiator{TrafficSelectors: message.IndividualTrafficSelectorContainer{{TSType: 7, StartAddress: r.Bytes(3), EndAddress: r.Bytes(4)}}}}}
+			_, _ = bad.Encode()
+		case 8: // calls that are refused: EAP packets that cannot be encoded, setter / builder arguments out of range
+			_, _ = (&eap.EAP{Code: 1, Identifier: r.Byte(), EapTypeData: &eap.EapIdentity{}}).Marshal()
+			_, _ = (&eap.EAP{Code: 2, Identifier: r.Byte(), EapTypeData: &eap.EapNak{}}).Marshal()
+			_ = eap.NewEapAkaPrime(1).SetAttr(eap.AT_RAND, r.Bytes(3))
+			var c message.IKEPayloadContainer
+			_ = c.BuildNotify5G_QOS_INFO(r.Byte(), make([]uint8, 300), true, false, 0)
+			_ = c.BuildEAP5GNAS(r.Byte(), make([]byte, 70000))
+			_, _, _, _, _, _ = eap.EapAkaPrimePRF(nil, r.Bytes(16), "x")
+			if k, err := libsa.NewKey(noiseKeyRaw); err == nil {
+				_, _ = k.Encr_i.Decrypt(r.Bytes(17))
+			}
+		default: // algorithm registry / proposal traffic
+			k := newInfoKey(r.Intn(3), r.Intn(3), r.Intn(3), r.Intn(2))
+			_, _ = k.ToProposal() // (NewIKESAKey would draw a DH secret from crypto/rand: not here)
+			ck := newChild(r.Intn(3), r.Intn(4))
+			if p, err := ck.ToProposal(); err == nil {
+				_, _ = security.NewChildSAKeyByProposal(p)
+			}
+		}
+	})
+	core.GlobalCount("unrelated_library_operations_in_between")
+}
+
+// noiseFor: unrelated activity before about every third case of a workload that does not go through the wrappers below.
+func noiseFor(k *core.Case) {
+	if k.Index%3 == 1 {
+		noise(uint64(k.Index)*0x9e3779b97f4a7c15 ^ core.StrSeed(k.Family))
+		if k.Index%2 == 1 { // and specifically a refused call right before the operation under test
+			noise8()
+		}
+	}
+}
+
+func noise8() {
+	core.Try(func() {
+		_, _ = (&eap.EAP{Code: 1, Identifier: 1, EapTypeData: &eap.EapIdentity{}}).Marshal()
+		_ = eap.NewEapAkaPrime(1).SetAttr(eap.AT_MAC, nil)
+		var c message.IKEPayloadContainer
+		_ = c.BuildNotify5G_QOS_INFO(7, make([]uint8, 300), true, false, 0)
+		_ = c.BuildEAP5GNAS(9, make([]byte, 70000))
+	})
+	core.GlobalCount("refused_calls_right_before_the_operation")
+}
+
+// around runs unrelated activity / a sibling call before the operation under test, for about a third of the inputs.
+func around(h uint64, sibling func()) {
+	switch h % 6 {
+	case 0:
+		noise(h)
+	case 1:
+		if sibling != nil {
+			core.Try(sibling)
+			core.GlobalCount("sibling_calls_before_the_operation")
+		}
+	}
+}
+
+// scribbleObject edits, in place, everything reachable through exported fields of a library-returned object (what an
+// application does when it narrows a decoded offer, fills in its SPI, wipes a message before recycling it).
+func scribbleObject(v interface{}) {
+	seen := map[uintptr]bool{}
+	var walk func(v reflect.Value, depth int)
+	walk = func(v reflect.Value, depth int) {
+		if depth > 12 || !v.IsValid() {
+			return
+		}
+		switch v.Kind() {
+		case reflect.Ptr:
+			if v.IsNil() || seen[v.Pointer()] {
+				return
+			}
+			seen[v.Pointer()] = true
+			walk(v.Elem(), depth+1)
+		case reflect.Interface:
+			if !v.IsNil() {
+				walk(v.Elem(), depth+1)
+			}
+		case reflect.Struct:
+			for i := 0; i < v.NumField(); i++ {
+				if v.Type().Field(i).PkgPath == "" { // exported
+					walk(v.Field(i), depth+1)
+				}
+			}
+		case reflect.Slice:
+			if v.Type().Elem().Kind() == reflect.Uint8 {
+				b := v.Bytes()
+				for i := range b {
+					b[i] ^= 0xA5
+				}
+				return
+			}
+			for i := 0; i < v.Len(); i++ {
+				walk(v.Index(i), depth+1)
+			}
+		case reflect.Uint8, reflect.Uint16, reflect.Uint32, reflect.Uint64, reflect.Uint:
+			if v.CanSet() {
+				v.SetUint(v.Uint() ^ 0x5A)
+			}
+		case reflect.Bool:
+			if v.CanSet() {
+				v.SetBool(!v.Bool())
+			}
+		}
+	}
+	walk(reflect.ValueOf(v), 0)
+}
+
+// siblingMsg agrees with m in everything a careless cache key might look at (header fields, first payload, number of
+// payloads where possible) but differs in content.
+func siblingMsg(m *abs.Msg) *abs.Msg {
+	s := *m
+	s.Payloads = append([]abs.Payload{}, m.Payloads...)
+	if n := len(s.Payloads); n > 0 && s.Payloads[n-1].Kind != abs.PNonce {
+		s.Payloads[n-1] = abs.Payload{Kind: abs.PNonce, Data: []byte("sibling nonce....")}
+	} else {
+		s.Payloads = append(s.Payloads, abs.Payload{Kind: abs.PVendor, Data: []byte("sibling")})
+	}
+	return &s
+}
+
+func hashBytes(b []byte) uint64 {
+	h := uint64(1469598103934665603)
+	for _, c := range b {
+		h = (h ^ uint64(c)) * 1099511628211
+	}
+	return h ^ uint64(len(b))
+}
+
+func hashMsg(m *abs.Msg) uint64 {
+	return abs.Hash64(fmt.Sprintf("%d/%d/%d/%d/%d/%s", m.MsgID, m.ISPI, m.RSPI, m.Exch, m.Flags, abs.Kinds(m)))
+}
+
 // libEncode: abs -> library objects -> (*IKEMessage).Encode.
 func libEncode(m *abs.Msg) (b []byte, err error, p *core.Panic) {
+	around(hashMsg(m), func() {
+		if lm, err := bridge.BuildMsg(siblingMsg(m)); err == nil {
+			_, _ = lm.Encode()
+		}
+	})
 	p = core.Try(func() {
 		var lm *message.IKEMessage
 		lm, err = buildMsgObject(m)
@@ -119,6 +326,17 @@ func libEncode(m *abs.Msg) (b []byte, err error, p *core.Panic) {
 
 // libDecode: (*IKEMessage).Decode -> abs.
 func libDecode(b []byte) (m *abs.Msg, err error, p *core.Panic) {
+	around(hashBytes(b), func() { // same header, body altered in one octet / cut
+		if len(b) > 29 {
+			sb := append([]byte{}, b...)
+			sb[28+int(hashBytes(b)>>8)%(len(b)-28)] ^= 0x04
+			_ = new(message.IKEMessage).Decode(sb)
+		}
+		// the same datagram was decoded before and the application edited what it got
+		if o := new(message.IKEMessage); o.Decode(append([]byte{}, b...)) == nil {
+			scribbleObject(o)
+		}
+	})
 	p = core.Try(func() {
 		lm := new(message.IKEMessage)
 		err = lm.Decode(b)
@@ -138,6 +356,7 @@ func libDecodeKeep(b []byte) (lm *message.IKEMessage, err error, p *core.Panic) 
 }
 
 func libEAPMarshal(e *abs.EAP) (b []byte, err error, p *core.Panic) {
+	around(abs.Hash64(e.JSON()), nil)
 	p = core.Try(func() {
 		var le *eap.EAP
 		le, err = bridge.BuildEAP(e)
@@ -151,6 +370,16 @@ func libEAPMarshal(e *abs.EAP) (b []byte, err error, p *core.Panic) {
 }
 
 func libEAPUnmarshal(b []byte) (e *abs.EAP, err error, p *core.Panic) {
+	around(hashBytes(b)+2, func() {
+		if len(b) > 6 {
+			sb := append([]byte{}, b...)
+			sb[5+int(hashBytes(b)>>8)%(len(b)-5)] ^= 0x04
+			_ = new(eap.EAP).Unmarshal(sb)
+		}
+		if o := new(eap.EAP); o.Unmarshal(append([]byte{}, b...)) == nil {
+			scribbleObject(o)
+		}
+	})
 	p = core.Try(func() {
 		le := new(eap.EAP)
 		err = le.Unmarshal(b)
@@ -178,6 +407,11 @@ func role(initiator bool) message.Role {
 
 // libProtect: EncodeEncrypt of a freshly built message.
 func libProtect(m *abs.Msg, key *security.IKESAKey, initiator bool) (b []byte, err error, p *core.Panic) {
+	around(hashMsg(m)+1, func() { // the sibling goes out in the clear through the same entry point
+		if lm, err := bridge.BuildMsg(siblingMsg(m)); err == nil {
+			_, _ = ike.EncodeEncrypt(lm, nil, role(initiator))
+		}
+	})
 	p = core.Try(func() {
 		var lm *message.IKEMessage
 		lm, err = buildMsgObject(m)
@@ -190,12 +424,39 @@ func libProtect(m *abs.Msg, key *security.IKESAKey, initiator bool) (b []byte, e
 	return
 }
 
+// preparsedHeader gives the header object a receiver has in hand when it calls DecodeDecrypt(datagram, header, ...):
+// parsed from the datagram slice itself; parsed from a 28-octet peek (PayloadBytes empty); or filled in by hand
+// from the header fields (PayloadBytes nil).  The datagram argument is the authority for the payload octets.
+func preparsedHeader(b []byte) (*message.IKEHeader, error) {
+	h, err := message.ParseHeader(b)
+	if err != nil {
+		return nil, err
+	}
+	switch hashBytes(b) >> 16 % 3 {
+	case 1:
+		core.GlobalCount("preparsed_header_from_28_octet_peek")
+		return message.ParseHeader(append([]byte{}, b[:28]...))
+	case 2:
+		core.GlobalCount("preparsed_header_filled_in_by_hand")
+		return &message.IKEHeader{InitiatorSPI: h.InitiatorSPI, ResponderSPI: h.ResponderSPI, NextPayload: h.NextPayload, MajorVersion: h.MajorVersion,
+			MinorVersion: h.MinorVersion, ExchangeType: h.ExchangeType, Flags: h.Flags, MessageID: h.MessageID}, nil
+	}
+	core.GlobalCount("preparsed_header_from_the_datagram_slice")
+	return h, nil
+}
+
 // libUnprotect: DecodeDecrypt with header nil or pre-parsed from the same bytes.
 func libUnprotect(b []byte, preparse bool, key *security.IKESAKey, initiator bool) (m *abs.Msg, err error, p *core.Panic) {
+	around(hashBytes(b)+1, func() { // the same octets through the plain decoder, and under another SA's keys
+		_ = new(message.IKEMessage).Decode(append([]byte{}, b...))
+		if k, err := libsa.NewKey(noiseKeyRaw); err == nil {
+			_, _ = ike.DecodeDecrypt(append([]byte{}, b...), nil, k, role(initiator))
+		}
+	})
 	p = core.Try(func() {
 		var hdr *message.IKEHeader
 		if preparse {
-			hdr, err = message.ParseHeader(b)
+			hdr, err = preparsedHeader(b)
 			if err != nil {
 				err = fmt.Errorf("ParseHeader: %w", err)
 				return
@@ -209,12 +470,41 @@ func libUnprotect(b []byte, preparse bool, key *security.IKESAKey, initiator boo
 				panic("DecodeDecrypt returned (nil message, nil error)")
 			}
 			m = bridge.ObserveMsg(lm)
+			recycle(lm)
 		}
 	})
 	if p != nil && p.Site == "(outside free5gc/ike)" && strings.HasPrefix(p.Value, "DecodeDecrypt returned (nil") {
 		p.Site = "github.com/free5gc/ike.DecodeDecrypt"
 	}
 	return
+}
+
+// libUnprotectWith: DecodeDecrypt with a header object the caller already holds (kept from an earlier presentation).
+func libUnprotectWith(b []byte, hdr *message.IKEHeader, key *security.IKESAKey, initiator bool) (m *abs.Msg, err error, p *core.Panic) {
+	p = core.Try(func() {
+		var lm *message.IKEMessage
+		lm, err = ike.DecodeDecrypt(b, hdr, key, role(initiator))
+		if err == nil {
+			if lm == nil {
+				panic("DecodeDecrypt returned (nil message, nil error)")
+			}
+			m = bridge.ObserveMsg(lm)
+			// (no recycle here: the message shares the header object the caller keeps for the next presentation)
+		}
+	})
+	if p != nil && p.Site == "(outside free5gc/ike)" && strings.HasPrefix(p.Value, "DecodeDecrypt returned (nil") {
+		p.Site = "github.com/free5gc/ike.DecodeDecrypt"
+	}
+	return
+}
+
+// recycle: the application is done with a message object the library returned and reuses / wipes it (the observed
+// value above is a deep copy).  PayloadBytes is the documented view of the caller's own datagram: dropped, not wiped.
+func recycle(lm *message.IKEMessage) {
+	if lm.IKEHeader != nil {
+		lm.IKEHeader.PayloadBytes = nil
+	}
+	scribbleObject(lm)
 }
 
 func errStr(e error) string {
